@@ -133,7 +133,7 @@ pub fn pp_program(rng: &mut Rng) -> String {
 
 pub fn deep(rng: &mut Rng, max_depth: usize) -> String {
     let d = 1 + rng.below(max_depth.saturating_sub(6).max(1));
-    let kind = rng.below(12);
+    let kind = rng.below(15);
     let close_all = rng.chance(3, 4);
     let rep = |s: &str, n: usize| s.repeat(n);
     match kind {
@@ -148,6 +148,9 @@ pub fn deep(rng: &mut Rng, max_depth: usize) -> String {
         8 => format!("{} def x; {}", rep("let a = 1 in { ", d), if close_all { rep("} ", d) } else { String::new() }),
         9 => format!("def x {{ int v = a{}; }}", rep("[0]", d)),
         10 => format!("def x {{ int v = a{}; }}", rep(".f", d)),
+        11 => format!("def x {{ int v = {}1{}; }} def y;", rep("!if(1, 2, ", d), if close_all { rep(")", d) } else { String::new() }),
+        12 => format!("def x {{ int v = {}1{}; }} def y;", rep("!cond(1: ", d), if close_all { rep(")", d) } else { String::new() }),
+        13 => format!("{} def x; {} def y;", rep("foreach i = [1] in { if 1 then { ", d / 2 + 1), if close_all { rep("} } ", d / 2 + 1) } else { String::new() }),
         _ => format!("def x {{ int v = {}1{}; }}", rep("A<", d), if close_all { rep(">", d) } else { String::new() }),
     }
 }
@@ -362,6 +365,9 @@ pub fn families(ctx: &Ctx, c02: bool) -> Vec<Family> {
                 }
             }
         }));
+    }
+    // deep nesting and long repetitions: losslessness (C01) and totality (C02) both quantify over them
+    {
         fams.push(Family::new("deep-nesting", tier.pick(16, 64), move |_c, rng, emit| {
             for _ in 0..40 {
                 if !emit(text_case(deep(rng, 256))) {
